@@ -638,6 +638,165 @@ def parse(text: str, fname: str = 'build.ninja', manifest: T.Optional[Manifest] 
 
 
 # ---------------------------------------------------------------------------
+# dyndep (Ninja manual, "Dynamic Dependencies"): a build statement may name, with the `dyndep` binding, one of
+# its inputs as a file that is produced during the build and declares further implicit outputs and implicit
+# inputs of that statement:
+#     ninja_dyndep_version = 1
+#     build out | imp-out... : dyndep | imp-in...
+#       restat = 1
+
+def dyndep_files(m: Manifest) -> T.Dict[str, T.List[Edge]]:
+    """{dyndep file path: the edges bound to it}.  Raises NinjaError when a binding names a file that is not an
+    input of its statement (ninja: "dyndep '...' is not an input")."""
+    res: T.Dict[str, T.List[Edge]] = {}
+    for e in m.edges:
+        if 'dyndep' in e.bindings:
+            dd = e.bindings['dyndep']
+        elif 'dyndep' in e.rule.bindings:
+            dd = e.get('dyndep', shell=False)
+        else:
+            dd = e.scope.lookup('dyndep')
+        if not dd:
+            continue
+        dd = canon_path(dd)
+        if dd not in e.all_ins:
+            raise NinjaError(f"dyndep '{dd}' is not an input", e.lineno)
+        res.setdefault(dd, []).append(e)
+    return res
+
+
+def load_dyndep(m: Manifest, path: str, builddir: str) -> T.List[Edge]:
+    """Read the dyndep file `path` (relative to builddir) and add what it declares to the edges of m.
+    Returns the edges that were updated."""
+    bound = dyndep_files(m).get(canon_path(path), [])
+    full = path if os.path.isabs(path) else os.path.join(builddir, path)
+    try:
+        with open(full, encoding='utf-8', newline='') as f:
+            text = f.read()
+    except OSError as ex:
+        raise NinjaError(f'loading dyndep file {path!r}: {ex}')
+    lx = _Lexer(text, path)
+    t = lx.t
+    version_seen = False
+    updated: T.List[Edge] = []
+    seen_edges: T.Set[int] = set()
+
+    def paths() -> T.List[str]:
+        res = []
+        while True:
+            es = lx.read_eval(path=True)
+            if not es:
+                break
+            res.append(canon_path(evaluate(es, lambda n: '')))
+        return res
+
+    while not lx.eof():
+        c = t[lx.i]
+        if c in '\r\n':
+            if c == '\n':
+                lx.line += 1
+            lx.i += 1
+            continue
+        if c == '#':
+            k = t.find('\n', lx.i)
+            lx.i = len(t) if k < 0 else k + 1
+            lx.line += 1
+            continue
+        if c == ' ':
+            j = lx.i
+            while j < len(t) and t[j] == ' ':
+                j += 1
+            if j >= len(t) or t[j] in '\r\n#':
+                lx.i = j
+                continue
+            raise lx.err('unexpected indent')
+        ln = lx.line
+        word = lx.read_ident()
+        if word == 'ninja_dyndep_version':
+            if lx.peek() != '=':
+                raise lx.err("expected '='")
+            lx.i += 1
+            lx.skip_spaces()
+            v = evaluate(lx.read_eval(path=False), lambda n: '')
+            if v not in ('1', '1.0'):
+                raise NinjaError(f'{path}: unsupported ninja_dyndep_version {v!r}', ln)
+            version_seen = True
+            continue
+        if word != 'build':
+            raise NinjaError(f'{path}: unexpected {word!r}', ln)
+        if not version_seen:
+            raise NinjaError(f"{path}: expected 'ninja_dyndep_version = ...'", ln)
+        outs = paths()
+        imp_outs: T.List[str] = []
+        if lx.peek() == '|':
+            lx.i += 1
+            lx.skip_spaces()
+            imp_outs = paths()
+        if len(outs) != 1:
+            raise NinjaError(f'{path}: expected exactly one explicit output', ln)
+        if lx.peek() != ':':
+            raise lx.err("expected ':'")
+        lx.i += 1
+        lx.skip_spaces()
+        if lx.read_ident() != 'dyndep':
+            raise NinjaError(f"{path}: expected build command name 'dyndep'", ln)
+        if paths():
+            raise NinjaError(f'{path}: explicit inputs not supported', ln)
+        imp_ins: T.List[str] = []
+        if lx.peek() == '|' and not t.startswith('||', lx.i):
+            lx.i += 1
+            lx.skip_spaces()
+            imp_ins = paths()
+        if t.startswith('||', lx.i):
+            raise NinjaError(f'{path}: order-only inputs not supported', ln)
+        if not lx.eof():
+            if t.startswith('\r\n', lx.i):
+                lx.i += 2
+            elif t[lx.i] == '\n':
+                lx.i += 1
+            else:
+                raise lx.err(f'expected newline, got {t[lx.i:lx.i + 10]!r}')
+            lx.line += 1
+        # optional indented bindings (only restat is allowed)
+        while lx.i < len(t) and t[lx.i] == ' ':
+            j = lx.i
+            while j < len(t) and t[j] == ' ':
+                j += 1
+            if j >= len(t) or t[j] in '\r\n#':
+                break
+            lx.i = j
+            key = lx.read_ident()
+            if key != 'restat' or lx.peek() != '=':
+                raise NinjaError(f'{path}: unexpected binding {key!r}', lx.line)
+            lx.i += 1
+            lx.skip_spaces()
+            lx.read_eval(path=False)
+            lx.line += 1
+        e = m.producer.get(outs[0])
+        if e is None:
+            raise NinjaError(f"{path}: no build statement exists for '{outs[0]}'", ln)
+        if e not in bound:
+            raise NinjaError(f"{path}: build statement for '{outs[0]}' does not have this file as its dyndep binding", ln)
+        if id(e) in seen_edges:
+            raise NinjaError(f"{path}: multiple statements for '{outs[0]}'", ln)
+        seen_edges.add(id(e))
+        for o in imp_outs:
+            if o in m.producer and m.producer[o] is not e:
+                m.duplicate_outputs.append((o, m.producer[o], e))
+            elif o not in e.implicit_outs and o not in e.outs:
+                m.producer[o] = e
+                e.implicit_outs.append(o)
+        for i in imp_ins:
+            if i not in e.implicit:
+                e.implicit.append(i)
+        updated.append(e)
+    for e in bound:
+        if id(e) not in seen_edges:
+            raise NinjaError(f"{path}: '{e.outs[0]}' is not mentioned in its dyndep file", e.lineno)
+    return updated
+
+
+# ---------------------------------------------------------------------------
 # execution
 
 def file_digest(path: str) -> str:
@@ -774,3 +933,37 @@ build o2: phony out
     assert m.duplicate_outputs
     assert canon_path('a/./b/../c//d') == 'a/c/d' and canon_path('../x/../y') == '../y' and canon_path('/a/../../b') == '/b'
     assert parse_depfile('a.o: a.c \\\n b\\ c.h /x/y.h\n') == ['a.c', 'b c.h', '/x/y.h']
+    # dyndep (manual, "Dynamic Dependencies": the tarball example and the Fortran-module shape)
+    import tempfile
+    with tempfile.TemporaryDirectory(dir='/dev/shm' if os.path.isdir('/dev/shm') else None) as td:
+        text = ('rule f\n command = f $in -o $out\nrule scan\n command = scan $in > $out\n'
+                'build x.dd: scan a.f90 b.f90\n'
+                'build a.o: f a.f90 || x.dd\n  dyndep = x.dd\n'
+                'build b.o: f b.f90 || x.dd\n  dyndep = x.dd\n'
+                'build c.o: f c.f90\n')
+        m = parse(text)
+        assert sorted(dyndep_files(m)) == ['x.dd'] and len(dyndep_files(m)['x.dd']) == 2
+        with open(os.path.join(td, 'x.dd'), 'w') as f:
+            f.write('ninja_dyndep_version = 1\nbuild a.o | a.mod: dyndep\nbuild b.o: dyndep | a.mod\n  restat = 1\n')
+        up = load_dyndep(m, 'x.dd', td)
+        assert len(up) == 2 and m.producer['a.mod'] is m.edges[1] and m.edges[2].implicit == ['a.mod']
+        assert id(m.edges[1]) in m.ancestors(m.edges[2]) and not m.duplicate_outputs
+        for bad in ('build a.o: dyndep\n',                                              # no version
+                    'ninja_dyndep_version = 1\nbuild a.o: dyndep\n',                    # b.o not mentioned
+                    'ninja_dyndep_version = 1\nbuild a.o: dyndep\nbuild b.o: dyndep\nbuild c.o: dyndep\n',   # c.o is not bound
+                    'ninja_dyndep_version = 1\nbuild a.o: dyndep\nbuild a.o: dyndep\nbuild b.o: dyndep\n',   # twice
+                    'ninja_dyndep_version = 1\nbuild a.o: dyndep x\nbuild b.o: dyndep\n',                    # explicit input
+                    'ninja_dyndep_version = 2\nbuild a.o: dyndep\nbuild b.o: dyndep\n'):
+            with open(os.path.join(td, 'x.dd'), 'w') as f:
+                f.write(bad)
+            try:
+                load_dyndep(parse(text), 'x.dd', td)
+            except NinjaError:
+                continue
+            raise AssertionError(f'refninja accepted invalid dyndep file {bad!r}')
+        try:
+            dyndep_files(parse(text.replace('build b.o: f b.f90 || x.dd', 'build b.o: f b.f90')))
+        except NinjaError:
+            pass
+        else:
+            raise AssertionError('refninja accepted a dyndep binding that is not an input')
